@@ -30,6 +30,7 @@ mutual
   def namesF : Field → List Str
     | .attr n ty _ => n :: FTy.spellings ty
     | .attrReadOnly n ty => n :: FTy.spellings ty
+    | .attrRW r w ty _ => r :: w :: FTy.spellings ty
     | .text ty => FTy.spellings ty
     | .enumChild .. => []
     | .tagChild _ _ _ _ skip _ _ _ => skip
@@ -85,6 +86,7 @@ def ignoreTable : List (String × Ignore) := [
   -- <holder/> is the holder element of the harness
   ("DataForm", { schemaOnly := ["holder"], srcOnly := formSrcOnly, nsSrcOnly := ["urn:xmpp:media-element"] }),
   ("MucOwnerIq", { srcOnly := formSrcOnly, nsSrcOnly := ["urn:xmpp:media-element"] }),
+  ("MamQueryIq", { srcOnly := formSrcOnly, nsSrcOnly := ["urn:xmpp:media-element"] }),
   -- the two functions serve both query types: the other type's children and namespace
   ("DiscoInfoIq", { srcOnly := ["item", "jid"] ++ formSrcOnly,
                     nsSrcOnly := ["http://jabber.org/protocol/disco#items", "urn:xmpp:media-element"] }),
